@@ -122,9 +122,14 @@ def _collect_obs():
 
 # -- the oracle ---------------------------------------------------------------
 
-def check_table(segs, table, survivors, method, ctx=None):
-    """T1-T5 on one result.  `segs` is a DataFrame; raises Violation."""
+def check_table(segs, table, survivors, method, ctx=None, rtol=1e-9):
+    """T1-T5 on one result.  `segs` is a DataFrame; raises Violation.  `rtol` is
+    1e-9 for in-memory results and 2e-5 for tables read back from a .cns file
+    (the writer keeps 6 significant digits)."""
     import numpy as np
+
+    def _close(a, b):
+        return a == b or abs(a - b) <= rtol * max(1.0, abs(a), abs(b))
 
     cols = table["columns"]
     need = ["chromosome", "start", "end", "gene", "log2", "probes", "weight", "depth"]
@@ -284,6 +289,11 @@ def run_one(tape, tier, opts):
     processes = tape.weighted(
         [(2, 3), (3, 2), (16, 2), (tape.between(4, 15, "seg.p_mid"), 2), (1, 1)], "seg.processes")
     table = G.gen_cnr(tape, tier)
+    # haar's significance threshold (None = the default 0.0001); PAR-aware autosome set for hmm*
+    threshold = tape.weighted([(None, 3), (0.01, 1), (1e-8, 1), (0.3, 1)], "seg.threshold") \
+        if method == "haar" else None
+    parx = tape.weighted([(None, 3), ("grch38", 1), ("grch37", 1)], "seg.parx")
+    use_cli = tape.chance(1, 4, "seg.cli") and min_weight == 0
     ctx.pool_cfg["scramble_workers"] = tape.chance(1, 2, "pool.scramble")
     fault_kind = None
     if population == "fault":
@@ -296,6 +306,7 @@ def run_one(tape, tier, opts):
     ctx.worker_init.append(_worker_init)
     plan = {"population": population, "method": method, "skip_low": skip_low,
             "skip_outliers": skip_outliers, "min_weight": min_weight, "processes": processes,
+            "threshold": threshold, "diploid_parx_genome": parx, "cli": use_cli,
             "fault": fault_kind, "table": table["plan"], "n_bins": table["n"],
             "n_arms": len(table["arms"])}
     res = {"status": "ok", "population": population, "plan": plan}
@@ -303,7 +314,8 @@ def run_one(tape, tier, opts):
     n_filtered = 0
     try:
         cnarr = G.make_cna(table)
-        kw = dict(skip_low=skip_low, skip_outliers=skip_outliers, min_weight=min_weight)
+        kw = dict(skip_low=skip_low, skip_outliers=skip_outliers, min_weight=min_weight,
+                  threshold=threshold, diploid_parx_genome=parx)
 
         def call(procs):
             try:
@@ -410,6 +422,25 @@ def run_one(tape, tier, opts):
                 ctx.probe("fault.retry_ok")
         elif is_hmm:
             ctx.probe("method." + method + ".whole_genome")
+            if processes > 1 and tape.chance(1, 2, "seg.hmm_procs"):
+                # hmm* ignore the worker count; the table must not change with it
+                out2, exc = call(processes)
+                surv2, _n = _collect_obs()
+                if exc is not None:
+                    raise Violation("T6", f"C03/T6/{method}/raises",
+                                    f"{method} with processes={processes} raised {type(exc).__name__}: "
+                                    f"{D.mask_text(exc)[:300]} (processes=1 succeeds)")
+                d = D.diff(D.canon(out2), serial_c)
+                if d:
+                    raise Violation("T6", f"C03/T6/{method}",
+                                    f"{method} processes={processes}: table differs from the "
+                                    f"processes=1 table at {d}")
+                ctx.probe("method." + method + ".procs_gt_1")
+
+        # ---- the command-line path: .cnr file -> cnvkit.py segment -> .cns file -----
+        if use_cli:
+            _cli_path(ctx, tape, rundir, cnarr, table, method, skip_low, skip_outliers,
+                      threshold, parx, processes, is_hmm)
     except Skip:
         res["skipped"] = True
     except Violation as v:
@@ -441,6 +472,68 @@ def run_one(tape, tier, opts):
         "notes": ctx.notes[:5],
     })
     return res
+
+
+def _cli_path(ctx, tape, rundir, cnarr, table, method, skip_low, skip_outliers, threshold, parx,
+              processes, is_hmm):
+    """`cnvkit.py segment` on a written .cnr: the .cns it writes must satisfy T1-T5
+    against the table as read back from that file (6 significant digits)."""
+    import cnvlib
+    from cnvlib import commands
+    from skgenome import tabio
+    from sim import ctx as C
+    from sim import digest as D
+
+    cnr_path = os.path.join(rundir, "sample.cnr")
+    out_path = os.path.join(rundir, "sample.cli.cns")
+    tabio.write(cnarr, cnr_path)
+    back = cnvlib.read(cnr_path)
+    cols = {c: back.data[c].tolist() for c in back.data.columns}
+    cols["chromosome"] = [str(c) for c in cols["chromosome"]]
+    cols["gene"] = [str(g) for g in cols["gene"]]
+    if (cols["chromosome"] != list(table["columns"]["chromosome"])
+            or cols["start"] != list(table["columns"]["start"])
+            or cols["end"] != list(table["columns"]["end"])):
+        raise Violation("T1", f"C03/T1/{method}/cli/input_roundtrip",
+                        "the .cnr written from the generated table reads back with other bins")
+    table2 = dict(table)
+    table2["columns"] = cols
+    argv = ["segment", cnr_path, "-m", method, "-o", out_path, "-p", str(processes),
+            "--drop-outliers", str(skip_outliers)]
+    if skip_low:
+        argv.append("--drop-low-coverage")
+    if threshold is not None:
+        argv += ["-t", repr(threshold)]
+    if parx is not None:
+        argv += ["--diploid-parx-genome", parx]
+    try:
+        cargs = commands.parse_args(argv)
+        cargs.func(cargs)
+    except C.SimCrash:
+        raise
+    except BaseException as exc:  # noqa: BLE001
+        surv, _n = _collect_obs()
+        if is_hmm and _autosomal_survivors(surv) < HMM_MIN_AUTOSOMAL and not isinstance(
+                exc, (AssertionError, SystemExit)):
+            ctx.probe("hmm.degenerate_input_skipped")
+            return
+        raise Violation("T2", f"C03/T2/{method}/cli/raises/{type(exc).__name__}",
+                        f"cnvkit.py {' '.join(argv[:1] + argv[2:4] + argv[6:])} raised "
+                        f"{type(exc).__name__}: {D.mask_text(exc)[:300]} (do_segmentation succeeds)")
+    surv, _n = _collect_obs()
+    try:
+        cns = cnvlib.read(out_path)
+    except Exception as exc:  # noqa: BLE001
+        raise Violation("T1", f"C03/T1/{method}/cli/unreadable",
+                        f"the .cns written by cnvkit.py segment cannot be read: {exc}")
+    segs = cns.data.copy()
+    segs["chromosome"] = segs["chromosome"].astype(str)
+    try:
+        check_table(segs, table2, surv, method, None, rtol=2e-5)
+    except Violation as v:
+        raise Violation(v.clause, v.key + "/cli", f"cnvkit.py segment -m {method} -p {processes} "
+                                                   f"(.cns file): {v.message}")
+    ctx.probe("cli.segment_file_checked")
 
 
 def _raise_feature(table, method, skip_low, min_weight):
